@@ -227,8 +227,10 @@ def version_pool(rng):
 def random_dotted(rng):
     n = rng.choice([1, 2, 2, 3, 3, 4, 5])
     secs = []
-    for _ in range(n):
-        s = str(rng.choice([0, 0, 1, 1, 2, 2, 3, 4, 5, 9, 10, 14, 15, 20, 22, 100, 10 ** 12]))
+    for k in range(n):
+        pool = [1, 1, 2, 2, 2, 2, 0, 3, 14, 10 ** 12] if k == 0 else \
+            [0, 0, 0, 1, 1, 2, 2, 3, 4, 5, 9, 10, 14, 15, 20, 22, 100, 10 ** 12]
+        s = str(rng.choice(pool))
         if rng.random() < 0.2:
             s = "0" * rng.randrange(1, 3) + s
         secs.append(s)
